@@ -22,7 +22,7 @@ Trace == ndJsonDeserialize("trace.ndjson")
 Ev == Trace[l]
 SetOf(q) == {q[i] : i \in 1 .. Len(q)}
 
-CfgOf(e) == [np |-> e.np, npeers |-> e.npeers, nsrc |-> e.nsrc, limit |-> e.limit, seq |-> e.seq, edge |-> SetOf(e.edge)]
+CfgOf(e) == [np |-> e.np, npeers |-> e.npeers, nsrc |-> e.nsrc, limit |-> e.limit, seq |-> e.seq, edge |-> SetOf(e.edge), have0 |-> SetOf(e.have0)]
 
 TraceInit ==
     /\ l = 2 /\ viol = ""
